@@ -310,6 +310,22 @@ func c19Conn(d c19Desc, seed uint64) (*websocket.Conn, *RawPeer, *xport.End, err
 }
 
 func c19Write(r *fw.R, d c19Desc) {
+	if d.Seed%3 == 0 {
+		// earlier in this process a wsjson.Write failed at the transport (its connection was gone): what that call
+		// left behind in the package must not matter to the writes of other connections
+		for k := 0; k < 1+int(d.Seed/3%3); k++ {
+			if dc, _, dEnd, err := c19Conn(d, d.Seed+uint64(k)+500); err == nil {
+				dc.CloseNow()
+				wctx, wc := context.WithTimeout(context.Background(), time.Second)
+				if wsjson.Write(wctx, dc, map[string]int{"n": k}) == nil {
+					r.Violate("C19/write-on-closed-connection-succeeded", "wsjson.Write returned nil on a closed connection", "")
+				}
+				wc()
+				dEnd.Close()
+				r.Count("writes_that_failed_at_the_transport_before_the_case", 1)
+			}
+		}
+	}
 	c, peer, peerEnd, err := c19Conn(d, d.Seed)
 	if err != nil {
 		r.Violate("C19/attach-failed", err.Error(), "")
